@@ -1,10 +1,24 @@
-"""C07 - mempool checks are isolated from consensus execution (see lib/replica.py)."""
-import replica
+"""C07 - mempool checks are isolated from consensus execution (AppArch.tla; Replica.tla and lib/replica.py for the executions)."""
+import replica, vlib
+
+ARCH = dict(MaxBlocks=2, MaxChecks=3, MaxTx=2, Deviations=set())
+ARCH_DEVS = ["proposalsUnboundInBegin", "feeOptUnboundInBegin", "checkUpdatesMemory"]
 
 
 def run(ctx, replay):
-    replica.run(ctx, "C07", replay)
+    if not replay:
+        # the pointer/taint model of the shared stores: every schedule of two blocks and three CheckTx calls; each
+        # counterexample of a deviation is a schedule the executions below replay (families gov, govfee)
+        ctx.sany("AppArch")
+        r = ctx.tlc("AppArch", "arch.cfg", name="apparch-mc", cfg_text=vlib.cfg_text("Spec", ARCH, ["NoTaintInConsensus", "TypeOK"]))
+        for dev in ARCH_DEVS:
+            d = ctx.tlc("AppArch", "archdev.cfg", name="apparch-dev-" + dev, allow_violation=True,
+                        cfg_text=vlib.cfg_text("Spec", dict(ARCH, Deviations={dev}), ["NoTaintInConsensus", "TypeOK"]))
+            if d["ok"] or "Invariant NoTaintInConsensus is violated" not in d["text"]:
+                raise vlib.ToolFailure("vacuity control failed: AppArch deviation %s not caught" % dev)
+        ctx.cov["apparch_states"] = r["distinct"]
+    replica.run(ctx, "C07", replay, families=replica.FAMILIES + ["govfee"])
     ctx.cov.setdefault("rule", RULE)
 
 
-RULE = "per history one twin without any CheckTx and four twins with CheckTx calls injected at call boundaries (one twin: every boundary of one block; others: 1-6 random boundaries, 1-3 calls each), the injected transactions drawn from the history's own past and future transactions, fresh valid and adversarial requests, and garbage bytes"
+RULE = "per history one twin without any CheckTx and four twins with CheckTx calls injected at call boundaries (one twin: every boundary of one block; others: 1-6 random boundaries, 1-3 calls each), the injected transactions drawn from the history's own past and future transactions, fresh valid and adversarial requests, and garbage bytes; family govfee replays the schedules AppArch.tla's deviations produce: a user-sent finalise request of a passed fee-option proposal checked by the mempool before the block in which the application finalises it, with transfers at the old fee price delivered first in that block"
